@@ -5,6 +5,7 @@ import (
 	"fmt"
 	"io"
 	"os"
+	"path"
 	"path/filepath"
 	"sort"
 	"strconv"
@@ -192,6 +193,12 @@ func realDir(d string) string {
 	return d
 }
 
+// the configuration as the harness wrote it (set by setupBase)
+var expected struct {
+	layers string
+	dirs   [3]string
+}
+
 func setupBase(in Input, base, conf string) (*config.ConfigType, error) {
 	if in.BaseLink { // MP/b -> real/base: the configured path has a symbolic link in it
 		if err := os.MkdirAll(MP+"/real/base", 0755); err != nil {
@@ -210,6 +217,11 @@ func setupBase(in Input, base, conf string) (*config.ConfigType, error) {
 	if err != nil {
 		return nil, fmtErr("config: %v", err)
 	}
+	// what the model is told about the configuration is what the harness wrote into the file, not
+	// what config.Load made of it: a Load that resolves another directory then shows as a mismatch
+	// between model and scan instead of moving both
+	expected.layers = path.Join(base, in.LayersName)
+	expected.dirs = [3]string{in.Dirs[0], in.Dirs[1], in.Dirs[2]}
 	if err := manage.InitLayercakeBase(cfg); err != nil {
 		return nil, fmtErr("init: %v", err)
 	}
@@ -404,8 +416,8 @@ func finishCase(in Input, cfg *config.ConfigType, snap []procSnap, fault *faultM
 	if statusIdx >= 0 {
 		stT = q.Some(q.Nat(statusIdx))
 	}
-	c.Coq = q.App("C19.MkCase", q.Hx(cfg.Layerdirs), q.Hx(realDir(cfg.Layerdirs)),
-		q.HxList([]string{cfg.LayerBuildRoot, cfg.LayerOvfsWorkdir, cfg.LayerOvfsUpperdir}),
+	c.Coq = q.App("C19.MkCase", q.Hx(expected.layers), q.Hx(realDir(expected.layers)),
+		q.HxList([]string{expected.dirs[0], expected.dirs[1], expected.dirs[2]}),
 		q.HxList(names), q.List(pts), q.List(fts), stT, obsTerm)
 	classify(c, in, cfg, snap, fault)
 	return c
